@@ -2210,7 +2210,11 @@ impl<'a> Socket<'a> {
             tcp_trace!("starting zero-window-probe timer for t+{}", delay);
             self.timer.set_for_zero_window_probe(cx.now(), delay);
         }
-        if self.remote_win_len != 0 && self.timer.is_zero_window_probe() {
+        // The probe timer is also stopped once there is nothing left to probe with: an
+        // expired probe timer makes `dispatch` transmit, and only a probe rewinds it.
+        if (self.remote_win_len != 0 || self.tx_buffer.is_empty())
+            && self.timer.is_zero_window_probe()
+        {
             tcp_trace!("stopping zero-window-probe timer");
             self.timer.set_for_idle(cx.now(), self.keep_alive);
             if self.remote_last_seq != self.local_seq_no {
